@@ -443,6 +443,10 @@ func intSuffix(t types.Type) string {
 	k, ok := basicKind(t)
 	if ok {
 		switch k {
+		case types.Int8:
+			return "I8"
+		case types.Int16:
+			return "I16"
 		case types.Int32:
 			return "I32"
 		case types.Int, types.Int64:
@@ -469,6 +473,8 @@ func isIntType(t types.Type) bool {
 	switch k {
 	case types.Int32, types.Int, types.Int64, types.Uint8, types.Uint16, types.Uint32, types.Uint, types.Uint64:
 		return true
+	case types.Int8, types.Int16:
+		return true // generation 7: as values only (parameters, comparisons, results); no arithmetic
 	}
 	return false
 }
@@ -600,6 +606,19 @@ type fnCtx struct {
 	cloDefs   []string
 	cloSSA    string
 
+	// generation 7 (init7.go)
+	init7     *initInfo // the function is an initialiser: the package-level variables it writes are state
+	globAddr  map[*ssa.IndexAddr]globAddrInfo
+	fresh7    *ssa.Alloc   // the struct a constructor allocates
+	freshT    *types.Named // its type
+	ctorAlias map[ssa.Value]bool // values that are the tuple of a constructed struct (results of constructor calls)
+	opaque    map[*ssa.Parameter]bool
+	gosem7    bool
+	theMap    *ssa.MakeMap
+	mapElem   string
+	mapCur    string
+	mapType   string
+
 	body *strings.Builder
 }
 
@@ -725,6 +744,7 @@ func (c *fnCtx) run() string {
 	if f.TypeParams().Len() > 0 {
 		fail("generic function")
 	}
+	c.setup7()
 	c.analyseCFG()
 	c.analyseMemory()
 	c.fuel = c.tr.needsFuel(f)
@@ -756,6 +776,12 @@ func (c *fnCtx) run() string {
 	for k, p := range f.Params {
 		if k == 0 && f.Signature.Recv() != nil {
 			c.setupReceiver(p)
+			continue
+		}
+		if c.gen >= 7 && !c.isClosure && isOpaqueType(p.Type()) {
+			// a parameter without a value (the underlying io.WriterAt): it may only be stored in the field of that
+			// type of the struct being constructed, or passed on to a constructor
+			c.opaque[p] = true
 			continue
 		}
 		n := c.claim(p.Name(), k)
@@ -806,7 +832,7 @@ func (c *fnCtx) run() string {
 	var parts []string
 	res := f.Signature.Results()
 	for i := 0; i < res.Len(); i++ {
-		parts = append(parts, leanType(res.At(i).Type()))
+		parts = append(parts, c.tr.resultLeanType(f, i, c.gen))
 	}
 	for _, k := range c.stored {
 		parts = append(parts, c.storedType(k))
@@ -834,6 +860,14 @@ func (c *fnCtx) run() string {
 
 	cur := map[int]string{}
 	for k, n := range c.fieldParam {
+		if isGlobKey(k) {
+			cur[k] = c.globZero(c.globOf(k)) // package-level variables are zero before initialisation code runs
+			continue
+		}
+		if isStructKey(k) {
+			cur[k] = zeroValueOf(c.keyGoType(k)) // the fields of the struct that `new` allocates
+			continue
+		}
 		if isCellKey(k) && !c.isClosure {
 			// a captured variable of a parent: it does not exist before its `new` (executed at most once, see
 			// closureOf), which sets it to Go's zero value; that value stands in until then, so that every join can
@@ -863,6 +897,9 @@ func (c *fnCtx) run() string {
 	}
 	if c.gosem3 {
 		out.WriteString("import LowModel.GoSem3\n")
+	}
+	if c.gosem7 {
+		out.WriteString("import LowModel.GoSem7\n")
 	}
 	var imps []string
 	for i := range c.imports {
@@ -930,8 +967,11 @@ func (c *fnCtx) storedType(k int) string {
 	if k == extKey {
 		return "GoSem2.ExtCall"
 	}
-	if isCellKey(k) {
-		return leanType(c.cellElem(k))
+	if isGlobKey(k) {
+		return c.globLeanType(c.globOf(k))
+	}
+	if isCellKey(k) || isStructKey(k) {
+		return leanType(c.keyGoType(k))
 	}
 	return leanType(c.recvStruct.Field(k).Type())
 }
@@ -1049,6 +1089,9 @@ func (c *fnCtx) scanCells() {
 			}
 			if _, isCell := c.cellKeyOf(a); isCell {
 				continue // a variable captured by the function's closure (closure.go)
+			}
+			if c.fresh7 != nil && a == c.fresh7 {
+				continue // the struct a constructor allocates (init7.go)
 			}
 			var store *ssa.Store
 			var loads []*ssa.UnOp
@@ -1508,8 +1551,7 @@ func (c *fnCtx) emitBlock(b *ssa.BasicBlock, ind int, curIn map[int]string) {
 	case *ssa.Return:
 		var parts []string
 		for _, r := range t.Results {
-			leanType(r.Type())
-			parts = append(parts, c.operand(r))
+			parts = append(parts, c.resultOperand(r, cur))
 		}
 		for _, k := range c.stored {
 			parts = append(parts, cur[k])
@@ -1850,6 +1892,9 @@ func onlyFeedsNoop(v ssa.Value) bool {
 }
 
 func (c *fnCtx) emitInstr(in ssa.Instruction, ind int, cur map[int]string) {
+	if c.gen >= 7 && c.emit7(in, ind, cur) {
+		return
+	}
 	if c.gen >= 3 && c.emitMem(in, ind, cur) {
 		return
 	}
@@ -1862,14 +1907,14 @@ func (c *fnCtx) emitInstr(in ssa.Instruction, ind int, cur map[int]string) {
 			if !isIntType(v.X.Type()) || !types.Identical(v.X.Type().Underlying(), v.Y.Type().Underlying()) {
 				fail("%s on %s", v.Op, v.X.Type())
 			}
-			if intSuffix(v.X.Type()) == "U16" {
+			if s := intSuffix(v.X.Type()); s == "U16" || s == "I8" || s == "I16" {
 				fail("%s on %s", v.Op, v.X.Type())
 			}
 			c.let(ind, v, fmt.Sprintf("GoSem.%s%s %s %s", name, intSuffix(v.X.Type()), c.operand(v.X), c.operand(v.Y)))
 			return
 		}
 		if name, ok := shiftOps[v.Op]; ok {
-			if !isIntType(v.X.Type()) || intSuffix(v.X.Type()) == "U16" {
+			if !isIntType(v.X.Type()) || intSuffix(v.X.Type()) == "U16" || intSuffix(v.X.Type()) == "I8" || intSuffix(v.X.Type()) == "I16" {
 				fail("shift of %s", v.X.Type())
 			}
 			if !isIntType(v.Y.Type()) || !isUnsigned(v.Y.Type()) {
@@ -1980,12 +2025,12 @@ func (c *fnCtx) emitInstr(in ssa.Instruction, ind int, cur map[int]string) {
 			}
 		case token.SUB:
 			s := intSuffix(v.X.Type())
-			if s == "U32" || s == "U8" || s == "U16" {
+			if s == "U32" || s == "U8" || s == "U16" || s == "I8" || s == "I16" {
 				fail("negation on %s", v.X.Type())
 			}
 			c.let(ind, v, fmt.Sprintf("GoSem.neg%s %s", s, c.operand(v.X)))
 		case token.XOR:
-			if intSuffix(v.X.Type()) == "U16" {
+			if s := intSuffix(v.X.Type()); s == "U16" || s == "I8" || s == "I16" {
 				fail("^ on %s", v.X.Type())
 			}
 			c.let(ind, v, fmt.Sprintf("GoSem.not%s %s", intSuffix(v.X.Type()), c.operand(v.X)))
@@ -2005,6 +2050,9 @@ func (c *fnCtx) emitInstr(in ssa.Instruction, ind int, cur map[int]string) {
 		if intSuffix(v.Type()) == "U16" {
 			c.let(ind, v, fmt.Sprintf("%stoU16 %s", c.useGoSem2(), c.asInt(v.X)))
 			return
+		}
+		if s := intSuffix(v.Type()); s == "I8" || s == "I16" {
+			fail("conversion %s <- %s", v.Type(), v.X.Type())
 		}
 		c.let(ind, v, fmt.Sprintf("GoSem.to%s %s", intSuffix(v.Type()), c.asInt(v.X)))
 
@@ -2076,6 +2124,9 @@ func (c *fnCtx) emitInstr(in ssa.Instruction, ind int, cur map[int]string) {
 			elem := v.Type().Underlying().(*types.Pointer).Elem()
 			c.bind(ind, v, leanType(elem), fmt.Sprintf("GoSem.index %s %s", c.operand(v.X), c.asInt(v.Index)))
 			return
+		}
+		if g, ok := v.X.(*ssa.Global); ok && c.inInit() {
+			fail("the initialiser reads the table %s, which it does not initialise itself (the order of initialisation is not modelled)", g.Name())
 		}
 		if g, ok := v.X.(*ssa.Global); ok && g.Pkg != nil && g.Pkg.Pkg.Path() == modulePath+"/bitmap" {
 			if tb, ok := maskTables[g.Name()]; ok {
@@ -2283,7 +2334,16 @@ func (c *fnCtx) emitCall(v *ssa.Call, ind int, cur map[int]string) {
 			}
 			callArgs = callArgs[1:]
 		}
-		for _, a := range callArgs {
+		for i, a := range callArgs {
+			if p, isParam := a.(*ssa.Parameter); isParam && c.opaque[p] {
+				// the parameter without a value is handed to a constructor that stores it: left out on both sides
+				cp := callee.Params[len(callee.Params)-len(callArgs)+i]
+				if c.tr.genOf(tname) < 7 || !isOpaqueType(cp.Type()) {
+					fail("%s is passed to %s", p.Name(), callee.Name())
+				}
+				c.tr.ctorOf(callee)
+				continue
+			}
 			leanType(a.Type())
 			args = append(args, c.operand(a))
 		}
@@ -2302,6 +2362,25 @@ func (c *fnCtx) emitCall(v *ssa.Call, ind int, cur map[int]string) {
 				c.emitStoringCall(v, callee, expr, ind, cur)
 				return
 			}
+		}
+		if c.gen >= 7 && isCtorResultType(v.Type()) {
+			// the result of a constructor: the tuple of the fields of the struct it allocates
+			ty := structTupleType(c.tr.ctorOf(callee))
+			if c.tr.canPanic(callee) || c.tr.needsFuel(callee) {
+				c.bind(ind, v, ty, expr)
+			} else {
+				c.line(ind, "let %s : %s := %s;", v.Name(), ty, expr)
+				c.defined[v], c.defType[v] = v.Name(), ty
+			}
+			c.ctorAlias[v] = true
+			for _, u := range *v.Referrers() {
+				switch u.(type) {
+				case *ssa.DebugRef, *ssa.Return, *ssa.MakeInterface, *ssa.MapUpdate:
+				default:
+					fail("the constructed struct %s is used in %s", v.Name(), u)
+				}
+			}
+			return
 		}
 		if c.tr.canPanic(callee) || c.tr.needsFuel(callee) {
 			c.bind(ind, v, leanType(v.Type()), expr)
